@@ -259,38 +259,53 @@ def pollard_default_m():
   return _PM
 
 
-def smooth_prime(mat, bits, required=1, max_factor_bits=20):
-  """Prime p with p - 1 | pollard_default_m(); `required` divides p - 1."""
+def smooth_prime(mat, bits, required=1):
+  """Prime p of exactly `bits` bits with p - 1 | pollard_default_m() and required | p - 1.
+
+  `required` must divide pollard_default_m().
+  """
   ps = small_primes(1 << 20)
   m = pollard_default_m()
+  assert m % required == 0
+  base = required if required % 2 == 0 else 2 * required
   while True:
-    v = 2 * required
-    # multiply distinct primes > 150th prime (exponent 1 in m) until the size is right
+    v = base
     used = set()
+    # distinct primes beyond the 150 with higher exponents (exponent 1 in m), not dividing base
     while v.bit_length() < bits - 21:
       p = ps[mat.between(200, len(ps) - 1)]
-      if p in used or v % p == 0:
+      if p in used or base % p == 0:
         continue
       used.add(p)
       v *= p
-    # final factor chosen so that v*f + 1 has exactly `bits` bits and is prime
     lo = ((1 << (bits - 1)) // v) + 1
     hi = ((1 << bits) - 1) // v
-    cands = [p for p in ps[200:] if lo <= p <= hi and p not in used and v % p]
-    cands = mat.shuffle(cands)[:4000]
-    for f in cands:
+    cands = [p for p in ps[200:] if lo <= p <= hi and p not in used and base % p]
+    for f in mat.shuffle(cands)[:6000]:
       c = v * f + 1
       if c.bit_length() == bits and m % (c - 1) == 0 and is_prime(c):
         return c
 
 
-def smooth_shared_factor(mat, gbits=64):
-  """A 2^20-smooth squarefree g >= 2^gbits built from primes with exponent 1 in m."""
+def smooth_shared_factor(mat, kind=0):
+  """A 2^20-smooth g >= 2^60 with g | pollard_default_m()."""
   ps = small_primes(1 << 20)
-  g = 1
+  kind = kind % 5
+  if kind == 4:
+    # a maximal power of one of the 150 first primes (exponent > 1 in m)
+    r = ps[mat.between(3, 149)]
+    e = 1
+    while r ** (e + 1) <= 2**64:
+      e += 1
+    return r**e if r**e >= 2**60 else r**e * 2**20
+  if kind == 1:
+    return 2 ** mat.between(60, 63)
+  if kind == 2:
+    return 3**40
+  g = 1 if kind == 0 else 2 ** mat.between(1, 30)
   used = set()
-  while g.bit_length() <= gbits:
-    p = ps[mat.between(200, len(ps) - 1)]
+  while g < 2**60:
+    p = ps[mat.between(150, len(ps) - 1)]
     if p in used:
       continue
     used.add(p)
@@ -299,15 +314,20 @@ def smooth_shared_factor(mat, gbits=64):
 
 
 def prime_with_factor(mat, bits, g):
-  """Random prime p of `bits` bits with g | p - 1 (p - 1 otherwise not smooth)."""
+  """Random prime p of exactly `bits` bits with g | p - 1 (p - 1 otherwise random)."""
+  step = g if g % 2 == 0 else 2 * g
+  lo = ((1 << (bits - 1)) + step - 1) // step
+  hi = ((1 << bits) - 2) // step
+  assert hi > lo
   while True:
-    k = mat.bits(bits - g.bit_length() - 1) | (1 << (bits - g.bit_length() - 2))
-    c = 2 * g * k + 1
-    for _ in range(5000):
-      if c.bit_length() == bits and is_prime(c):
+    k = mat.between(lo, hi)
+    for _ in range(4000):
+      c = step * k + 1
+      if c.bit_length() != bits:
+        break
+      if is_prime(c):
         return c
-      c += 2 * g
-    # retry
+      k += 1
 
 
 # ---------------------------------------------------------------- ROCA structure
